@@ -438,8 +438,9 @@ class SymReal(float):
         return s.__reduce__()
 
 
-def sym_pow(x, n):
-    """x ** n for a proxy x and a concrete exponent n (int, or float with integral value / 1/k)."""
+def sym_pow(x, n, zero_exc=ZeroDivisionError):
+    """x ** n for a proxy x and a concrete exponent n (int, or float with integral value / 1/k).
+    zero_exc: what 0 ** negative raises (ZeroDivisionError for the ** operator, ValueError for math.pow)."""
     if isinstance(n, float) and n == int(n):
         n = int(n)
     e = x.expr
@@ -451,7 +452,7 @@ def sym_pow(x, n):
             r = r * e
         if n < 0:
             if ENG.branch(e == 0):
-                raise ZeroDivisionError("0.0 cannot be raised to a negative power")
+                raise zero_exc("0.0 cannot be raised to a negative power" if zero_exc is ZeroDivisionError else "math domain error")
             r = 1 / r
         return SymReal(z3.simplify(r))
     # fractional exponent 1/k: fresh root
